@@ -71,6 +71,34 @@ CLAIMED = {
         "technique": "Rocq proof of an inode-level file-system model of the write protocol (invariants over all operation prefixes) + strace trace/inode-state correspondence with the real binary, compared inside Coq",
         "coq_targets": ["Properties/C17.vo", "Corr/FsCorr.vo"],
     },
+    "C05": {
+        "text": "Theorems over all mapping jobs (any type environment, embedding depth, field lists, tags, mapper methods, flags): ToX/FromX plans are write-once and every emitted statement joins name-matching fields with a strategy applicable to their types (assignment / conversion minus string<->fixed-width int / exact-signature mapper method / sub-struct by value, pointer, slice); invariant proved by induction over the two literal matching passes with shared Field objects. Semantics, completeness and priority are evaluated inside Coq against a declarative specification on every sampled case (not yet a theorem); six open findings delimit the guard, three of them with Coq refutation witnesses.",
+        "design_ref": "DESIGN.md section 8, C05; section 13",
+        "note": COMMON_NOTE + "go/types predicates and the Go semantics of the emitted statements are modelled; user mapper/manual methods are a parameter.",
+        "technique": "Rocq proof by induction over the literal two-pass matcher + differential execution of generated ToX/FromX vs model and vs declarative spec, compared inside Coq",
+        "coq_targets": ["Properties/C05.vo", "Corr/MapperCorr.vo"],
+    },
+    "C04": {
+        "text": "Theorems over all enum packages of the grammar (any number of types/files/blocks/specs; ten integer kinds; iota, offset, shifted, explicit incl. negative, multi-name, carried-down, `_`, untyped interlopers) and every integer x: the literal stringer walk collects exactly the constants of the type; each declared constant maps to its prefix-trimmed name and back; Values/Strings are index-aligned, strictly ascending and a permutation of the declared values; IsValid x <-> declared; String x decimal otherwise; a changed or removed constant makes the old output ill-typed (iff characterisation of the guard). Guards: no duplicate values (open K_enum_dup), no implicitly typed / qualified-type specs (open K_enum_implicit_type, K_enum_foreign_carry), each with a refutation theorem. Model tied to str.go/enumer.tmpl by generating, compiling and executing packages and comparing inside Coq, incl. a stale-guard pass that edits sources without regenerating.",
+        "design_ref": "DESIGN.md section 8, C04; section 13",
+        "note": COMMON_NOTE + "go/types constant evaluation is modelled (cross-checked against the compiler's values on every run); compile errors are modelled only for the guard index and duplicate map keys.",
+        "technique": "Rocq proof (refinement of the declarative 'constants of type T' by the literal walk; sort/permutation; assoc-list round trips) + differential execution of generated packages vs model",
+        "coq_targets": ["Properties/C04.vo", "Corr/EnumCorr.vo"],
+    },
+    "C10": {
+        "text": "Theorems over every accepted result list, every status in Z, every body, every behaviour of encoding/json and every failing call: a generated method exists exactly for the accepted signatures; it returns a nil error iff 200 <= status < 300 and the body decodes (io.EOF counting as the zero value), the decoded value (its address for pointer results) next to the response; 400..499 -> `client error <status>: <body>`, >= 500 -> `server error …`, everything else -> `not supported error <status>` (texts proved to determine status and body); JoinPath/Marshal/NewRequest/transport failures are returned unchanged with every other slot nil; the response accompanies every return after it was received; the result is nil on every error path; arity and nil-ability hold outside two refuted input classes (open findings K_rest_array_result, K_rest_multi_name_result). The model (cook_results transcribed literally, the template rendered to abstract Go statements and executed) is tied to internal/restclient by generating ~60 clients per run with the real shoot, compiling them and driving every method against scripted real and fabricated responses and 13 kinds of failures, compared inside Coq (thorough: every status 200..599 x 4 body classes x all shapes).",
+        "design_ref": "DESIGN.md section 8, C10; section 13",
+        "note": COMMON_NOTE + "encoding/json is a model parameter instantiated by measurement; net/http is not modelled (cases start from what http.Client.Do returned; statuses < 200 and > 999 only through fabricated responses); the response body's Close is compared but not part of the property.",
+        "technique": "Rocq proof (refinement of a declarative spec by the literal cook_results + emitted-statement interpreter, case analysis over Z) + differential run of generated clients (real shoot, go build, reflection driver, httptest + fabricated transports) vs model",
+        "coq_targets": ["Properties/C10.vo", "Corr/RestHandleCorr.vo"],
+    },
+    "C06": {
+        "text": "Theorems over all directives (token lists with any number of placeholders, alias lists), all parameter lists over {context, scalar, pointer scalar, struct/pointer struct with arbitrary field lists, map}, all argument values, all iteration orders of the three Go maps involved and all instances of the standard-library functions: inside decidable guards (well-formed directive, distinct names, at most one struct/map/context, arguments of the declared kinds without `{` in path texts and without nil pointer-to-struct on GET/DELETE) the generator model accepts the method and the generated method sends exactly the declaratively specified single request — directive verb, path with every placeholder replaced by the alias-resolved argument joined to the base URL, query parameters with url.Values.Set semantics (nil pointers omitted, map last), JSON body of the struct argument on POST/PUT/PATCH, per-verb default headers overridden by the headers= directive in key order, the caller's context — or the same error; methods are analysed independently. Nine open findings are refuted by witness or replayed. Tied to internal/restclient by running the real shoot on generated interface packages, compiling the clients and calling every method against a recording server (compared inside Coq with the model and with the declarative spec), plus differential runs of the directive parsers (verifprobe) and of the stdlib instances.",
+        "design_ref": "DESIGN.md section 8, C06; section 13",
+        "note": COMMON_NOTE + "RE2 and text/template are not modelled (the six regexes are executed literally by a backtracking matcher validated differentially; the template's meaning is hand-written); url.JoinPath, fmt %v, encoding/json enter as parameters; path arguments with a percent sign, `{` in path arguments, nil pointer-to-struct on GET/DELETE, body verbs without struct, *map, two maps, duplicate alias targets and structs of another file are open findings outside the guards.",
+        "technique": "Rocq refinement proof (generator model + template semantics ⊑ declarative request) by induction over parameter, field, token and write lists + differential run of generated clients, directive parsers and stdlib instances vs the model",
+        "coq_targets": ["Properties/C06.vo", "Corr/RestCorr.vo"],
+    },
 }
 
 NOT_CLAIMED = {}
